@@ -68,7 +68,11 @@ func parseUrlPath(pathStr string, m meta.Definition) ([]*Path, error) {
 			return nil, fmt.Errorf("%w. %s not found in %s", fc.NotFoundError, ident, p.Meta.Ident())
 		}
 		if len(keyStrs) > 0 {
-			if seg.Key, err = NewValuesByString(seg.Meta.(*meta.List).KeyMeta(), keyStrs...); err != nil {
+			listMeta, isList := seg.Meta.(*meta.List)
+			if !isList {
+				return nil, fmt.Errorf("%w. %s is not a list and cannot have a key", fc.BadRequestError, ident)
+			}
+			if seg.Key, err = NewValuesByString(listMeta.KeyMeta(), keyStrs...); err != nil {
 				return nil, err
 			}
 		}
